@@ -412,6 +412,20 @@ func (cs *clientStream) doHttpCall(transport http.RoundTripper, req *http.Reques
 		close(cs.rCh)
 	}()
 
+	// If the RPC is cancelled or times out while the transport is still
+	// reading the request body from the pipe, nothing else would unblock
+	// that read (the body's Close is intercepted, see NewStream) and the
+	// transport waits for it before RoundTrip returns. So end it here.
+	stop := make(chan struct{})
+	defer close(stop)
+	go func() {
+		select {
+		case <-cs.ctx.Done():
+			readPipe.CloseWithError(statusFromContextError(cs.ctx.Err()))
+		case <-stop:
+		}
+	}()
+
 	onReady := func(err error, headers metadata.MD) {
 		cs.hdErr = err
 		cs.hd = headers
